@@ -24,8 +24,8 @@ B = random edit of A, C = random edit of B / C = A / C = edit of A / independent
 findings); exhaustive: all pairs of duplicate-free user-ordered sequences over <= 4 keys (reverse), all triples over 9 tiny
 per-node state spaces under the 4 option settings (merge).
 Known findings: F15 (reverse of user-ordered changes), F18 (merge without LYD_DIFF_DEFAULTS / with LYD_DIFF_MERGE_DEFAULTS),
-F131 (leak in apply), F133 (NULL passed to strcmp in lyd_diff_is_redundant), F134 (stale `data` after apply) — recognised by
-their specific signatures; everything else that breaks a law is a violation.
+F163 (NULL passed to strcmp in lyd_diff_is_redundant), F164 (stale `data` after apply), F154 (leak in apply; found by component
+life as well and repaired at HEAD) — recognised by their specific signatures; everything else that breaks a law is a violation.
 """
 import itertools, json, os
 from vlib import treegen as tg, paths
@@ -236,10 +236,10 @@ def merge_features(s, A, B, C, D1, D2, M, X, o, mo):
 
 
 def c06_through(s, T, W, D, verdict, o, feat0):
-    """applying D to T (wanted: W) fails in a way C06 already lists (F50-F57): the id of that finding.
+    """applying D to T (wanted: W) fails in a way C06 already lists (F120-F128): the id of that finding.
     feat0: C06's features of the diff(s) D was made from."""
     if verdict.startswith("Reverse:") or verdict.startswith("Merge:"):
-        return "F56" if (verdict.endswith("Eint") and "move-with-content" in feat0) else None
+        return "F126" if (verdict.endswith("Eint") and "move-with-content" in feat0) else None
     feat = set(feat0)
     if D is not None:
         feat |= set(c06.features(s, T, W, D, o))
@@ -260,21 +260,21 @@ def classify(component, what, case):
     if case.get("crash"):
         st = case.get("stderr", "")
         if "LeakSanitizer" in what or "leaked" in what or "LeakSanitizer" in st:
-            # F131: the copy made for a user-ordered create is not freed when the anchor metadata is missing (reached through
-            # F15(b)); every allocation stack in the report must be that one
+            # F154 (component life; repaired at HEAD): the copy made for a user-ordered create is not freed when the anchor
+            # metadata is missing (reached through F15(b)); every allocation stack in the report must be that one
             blocks = [b for b in st.split("leak of ")[1:] if "lyd_" in b]
             if blocks and all("lyd_diff_apply_r" in b and "lyd_dup" in b and "lyd_diff_merge" not in b and "lyd_diff_reverse" not in b
                               for b in blocks):
-                return "F131"
-        # F133: lyd_diff_is_redundant() reads the orig-default metadata of a 'none' leaf / leaf-list node without checking that
+                return "F154"
+        # F163: lyd_diff_is_redundant() reads the orig-default metadata of a 'none' leaf / leaf-list node without checking that
         # it exists (assert only); reached when a diff of a moved state list instance (C06: whole subtree under 'replace',
         # children without operation) is merged
         if "lyd_diff_is_redundant" in st and "null pointer" in st and "lyd_diff_merge_r" in st:
-            return "F133"
+            return "F163"
         return None
     if law == "applyptr" and "top-level-first-instance-moved-behind-anchor" in feat:
-        # F134: lyd_diff_insert sets *first_node to the anchor when the first sibling is moved behind it
-        return "F134"
+        # F164: lyd_diff_insert sets *first_node to the anchor when the first sibling is moved behind it
+        return "F164"
     if law == "reverse":
         # F15(d): orig-value = value = '' (first place / predecessor with the empty value): lyd_change_meta reports "no change"
         if verdict == "Reverse:Enot" and "uo-equal-anchors" in feat:
@@ -440,23 +440,29 @@ def kind_of(line, reply):
     return "%s:ok" % op
 
 
+def fx_token(cx):
+    """the repaired findings of component diff the MODEL of apply has to follow (ignored by the harness)"""
+    return "fx=" + (",".join(sorted(f[1:] for f in ("F120", "F126", "F128") if cx.findings.get(f, {}).get("status") == "fixed")) or "-")
+
+
 def nontriv(line, reply):
     return not (reply[0] == "ok" and len(reply) > 1 and reply[1] == "-")
 
 
 def process(cx, schemas, cases, tag, reverse=True, merge=True, laws_every=4, merge_opts=((0, 0), (1, 0), (0, 1), (1, 1))):
     cases = build_trees(cx, schemas, cases)
+    fx = fx_token(cx)
     # ---- 1. the diffs (correspondence shared with C06; gives the features for the fragment and the classification)
     lines, idx = [], {}
     for k, c in enumerate(cases):
         d = tg.hx(c.s.dsl())
         for o in (0, 1):
             i = "d%s%d.%d" % (tag, k, o)
-            lines.append("%s %s diff %s %s %s %d" % (i, COMP, d, c.a, c.b, o))
+            lines.append("%s %s diff %s %s %s %d %s" % (i, COMP, d, c.a, c.b, o, fx))
             idx[i] = (c, o, 1)
             if merge and c.c is not None:
                 i = "e%s%d.%d" % (tag, k, o)
-                lines.append("%s %s diff %s %s %s %d" % (i, COMP, d, c.b, c.c, o))
+                lines.append("%s %s diff %s %s %s %d %s" % (i, COMP, d, c.b, c.c, o, fx))
                 idx[i] = (c, o, 2)
     ri = run_impl(cx, schemas, lines)
     rm = run_model(cx, schemas, lines)
@@ -485,7 +491,7 @@ def process(cx, schemas, cases, tag, reverse=True, merge=True, laws_every=4, mer
         lines = []
         for k, c in enumerate(cases):
             if not any(n.is_userord() or n.dup_inst() for n in c.s.nodes) and 1 not in c.gap:
-                lines.append("x%s%d diff13 exact %s %s %s 1" % (tag, k, tg.hx(c.s.dsl()), c.a, c.b))
+                lines.append("x%s%d diff13 exact %s %s %s 1 %s" % (tag, k, tg.hx(c.s.dsl()), c.a, c.b, fx))
         rm = run_model(cx, schemas, lines)
         for l in lines:
             r = rm.get(l.split()[0], ["err", "NoReply"])
@@ -500,7 +506,7 @@ def process(cx, schemas, cases, tag, reverse=True, merge=True, laws_every=4, mer
         for o in (0, 1):
             if reverse and o in c.D1:
                 i = "r%s%d.%d" % (tag, k, o)
-                l = "%s %s reverse %s %s %s %d" % (i, COMP, d, c.a, c.b, o)
+                l = "%s %s reverse %s %s %s %d %s" % (i, COMP, d, c.a, c.b, o, fx)
                 lines.append(l)
                 idx[i] = (c, o, None)
                 if in_fragment(c.f1[o]) and o not in c.gap:
@@ -512,7 +518,7 @@ def process(cx, schemas, cases, tag, reverse=True, merge=True, laws_every=4, mer
                 if o not in c.D1 or o not in c.D2:
                     continue
                 i = "m%s%d.%d%d" % (tag, k, o, mo)
-                l = "%s %s merge3 %s %s %s %s %d %d" % (i, COMP, d, c.a, c.b, c.c, o, mo)
+                l = "%s %s merge3 %s %s %s %s %d %d %s" % (i, COMP, d, c.a, c.b, c.c, o, mo, fx)
                 lines.append(l)
                 idx[i] = (c, o, mo)
                 if in_fragment(c.f1[o]) and in_fragment(c.f2[o]) and not c06.dupinst_has_duplicates(tg.untok(c.s, c.a)) and \
@@ -622,9 +628,9 @@ def eval_merge(cx, c, o, mo, r, rid=None):
         return
     if uo:
         # user-ordered (incl. key-less / state) lists are outside the merge law (lyd_diff_is_redundant documents the merge of
-        # moves as lossy); how often the result differs in more than the order is reported in the distribution (finding F132)
+        # moves as lossy); how often the result differs in more than the order is reported in the distribution (finding F162)
         if verdict == "differs" and "differs-only-in-userord-order" not in feat:
-            cx.dist["law:merge:fails:userord: content differs, not only the order (F132, outside the law)"] += 1
+            cx.dist["law:merge:fails:userord: content differs, not only the order (F162, outside the law)"] += 1
         return
     feat = feat + list(c.f1.get(o, [])) + list(c.f2.get(o, []))
     through = c06_through(s, A, C, M, verdict, o, list(c.f1.get(o, [])) + list(c.f2.get(o, [])))
@@ -661,7 +667,7 @@ def eval_more(cx, c, o, mo, r):
         for k in ("pureD", "rev", "rev2", "invol", "rr"):
             if k in v and v[k] != LAWR_OK[k]:
                 if k == "rev" and v[k] == "Eint" and "move-with-content" in c.f1.get(o, []):
-                    cx.dist["lawr:outside(C06 finding F56)"] += 1
+                    cx.dist["lawr:outside(C06 finding F126)"] += 1
                     break
                 if k in ("rev", "rev2", "invol", "rr") and uo:
                     cx.dist["lawr:%s-fails:userord" % k] += 1         # covered by the reverse law / F15
